@@ -134,10 +134,36 @@ Resolve(p, m) == IF m = p.n2 THEN 2 ELSE IF m = p.n1 THEN 1 ELSE 0          \* 0
 AlphaVerdict(p) == IF Resolve(p, p.m1) = 0 \/ Resolve(p, p.m2) = 0 THEN "unbound"
                    ELSE IF Resolve(p, p.m1) = 1 /\ Resolve(p, p.m2) = 2 /\ p.v = "x" THEN "accept" ELSE "mismatch"
 
+(* ---- quantified types compared and instantiated UNDER THEIR OWN BINDER ---------------------------------------- *)
+(* Inside `fn (A : VType) .. => body` checked against T = forall (A : VType) . .., the skolem A of the body and the   *)
+(* bound variable of T are the same name.  A value of that very type T is in scope - the recursive `self` of a `fix`, *)
+(* or a sibling declared at the same alias, or at a textual copy of T ("share").                                      *)
+(*   quant:    let coerce : Thk (forall (B : VType) . a -> Ret b) = <value of type forall (A) . A -> Ret A>             *)
+(*             with a, b in {A (the skolem, FREE here), B (bound)}: equal types iff both are the bound variable.        *)
+(*   selfinst: ! <value of type forall (A) (B) . A -> B -> Ret A> t1 t2 v1 v2  with t1, t2 in {A, B} (the skolems) and  *)
+(*             vi the parameter of type ti: instantiation is capture avoiding, so all four are well typed -             *)
+(*             including B A (a naive A := B under the binder B would capture).                                         *)
+Shares == {"fix", "alias", "fresh"}
+Sk == {"A", "B"}
+QuantPrograms == {[fam |-> "quant", share |-> sh, a |-> x, b |-> y] : sh \in Shares, x \in Sk, y \in Sk}
+\* nameless form of `forall B . a -> Ret b` in a scope where A is a skolem: B is the bound index 1, A stays a free name
+Nameless(n) == IF n = "B" THEN <<"bound", 1>> ELSE <<"free", n>>
+QuantVerdict(p) == IF <<Nameless(p.a), Nameless(p.b)>> = << <<"bound", 1>>, <<"bound", 1>> >> THEN "accept" ELSE "mismatch"
+SelfInstPrograms == {[fam |-> "selfinst", share |-> sh, t1 |-> x, t2 |-> y] : sh \in Shares, x \in Sk, y \in Sk}
+\* simultaneous (capture-avoiding) instantiation of forall (A) (B) . A -> B -> Ret A at (t1, t2): parameter types (t1, t2)
+InstParams(p) == <<p.t1, p.t2>>
+ArgTypes(p) == <<p.t1, p.t2>>                    \* v_i is the parameter whose type is the skolem t_i
+SelfInstVerdict(p) == IF InstParams(p) = ArgTypes(p) THEN "accept" ELSE "mismatch"
+\* what a substitution that does not avoid capture computes for the second parameter: after A := t1 the inner binder B
+\* captures a free B.  The rule above differs from it exactly at t1 = "B": that is the case a replay must contain.
+NaiveSecondParam(p) == p.t2
+NaiveFirstParam(p) == IF p.t1 = "B" THEN p.t2 ELSE p.t1
+CaptureMatters == \E p \in SelfInstPrograms : <<NaiveFirstParam(p), NaiveSecondParam(p)>> # InstParams(p)
+
 VARIABLES stage, prog
 Init == stage = "pick" /\ prog \in {[fam |-> "seed", g |-> g] : g \in FnNames \cup {"alpha"}}
 Next == stage = "pick" /\ stage' = "done" /\
-        IF prog.g = "alpha" THEN prog' \in AlphaPrograms ELSE prog' \in Programs(prog.g)
+        IF prog.g = "alpha" THEN prog' \in AlphaPrograms \cup QuantPrograms \cup SelfInstPrograms ELSE prog' \in Programs(prog.g)
 Spec == Init /\ [][Next]_<<stage, prog>>
 
 (* ---- design statements -------------------------------------------------------------------------------------- *)
@@ -156,9 +182,11 @@ RespectsEquality == \A g \in {"id", "dup"} : \A a, b \in WellKinded(WK(E1)) : NF
                       \A v \in Vals, u \in Uses :
                         Verdict([fam |-> "inst", g |-> g, targs |-> <<a>>, vals |-> <<v>>, use |-> u, dropped |-> FALSE])
                         = Verdict([fam |-> "inst", g |-> g, targs |-> <<b>>, vals |-> <<v>>, use |-> u, dropped |-> FALSE])
-Inv == stage = "pick" /\ prog.g = "id" => (StrategyIndependent /\ Idempotent /\ NormalFormsAreNormal /\ SealedIsNominal /\ RespectsEquality)
+Inv == stage = "pick" /\ prog.g = "id" => (CaptureMatters /\ StrategyIndependent /\ Idempotent /\ NormalFormsAreNormal /\ SealedIsNominal /\ RespectsEquality)
 
 Report == stage = "done" =>
   IF prog.fam = "alpha" THEN PrintT(<<"REPLAY", ToJson(prog @@ [verdict |-> AlphaVerdict(prog), exit |-> 3])>>)
+  ELSE IF prog.fam = "quant" THEN PrintT(<<"REPLAY", ToJson(prog @@ [verdict |-> QuantVerdict(prog), exit |-> 3])>>)
+  ELSE IF prog.fam = "selfinst" THEN PrintT(<<"REPLAY", ToJson(prog @@ [verdict |-> SelfInstVerdict(prog), exit |-> 3])>>)
   ELSE PrintT(<<"REPLAY", ToJson(prog @@ [verdict |-> Verdict(prog), exit |-> IF Verdict(prog) = "accept" THEN Exit(prog) ELSE 0])>>)
 ================================================================================
